@@ -7,12 +7,21 @@ values below / at / above every bit-packing threshold (2^15, 2^20, 2^31, 2^63), 
 mixed signs, other integer dtypes and floats inside rounding cells, calls the real
 trimesh.grouping functions, records (abstract input, options, result) and has TLC validate
 every record in batch against the reference (code -> spec).
+
+Coverage audit (checks/c06_ext.py): empty input of every function, stored dtypes at their own
+limits (int8 .. uint64 above 2^63, bool, strings, exact floats), option combinations and entry
+points never taken before (return flags / minlength / values of the 1-D uniques,
+unique_value_in_row(unique=), hashable_rows(allow_int), unique_float, blocks(digits=)), memory
+layouts and containers, larger seeded arrays, unique_bincount on every magnitude (isolated child
+processes), and for all of those: input unchanged, second call identical.  An empty index group
+is no longer ignored: a partition has no empty class.
 """
 import itertools
 import sys
 
 import numpy as np
 
+from checks import c06_ext
 from harness import tlc
 from harness.common import (MachineryError, Verdict, import_trimesh, pmap, seed,
                             tier_from_args)
@@ -254,6 +263,8 @@ def main(argv):
     tier = tier_from_args(argv)
     V = Verdict(PROP, tier)
     import_trimesh()
+    # unique_bincount on huge / extreme values runs in short-lived children (started first)
+    iso_procs = c06_ext.iso_start(tier)
     arrays = row_arrays(tier)
     work = []
     for idx, (cols, rows) in enumerate(arrays):
@@ -272,10 +283,31 @@ def main(argv):
     res = pmap(gen_row_cases, work, chunk=400)
     cases = [c for r in res for c in r]
     cases += seq_cases(tier)
+    n_base = len(cases)
+    for c in cases:
+        c["fam"] = "base"
+    # ---- audit families
+    ext = pmap(c06_ext.gen_ext, c06_ext.ext_work(tier, arrays), chunk=100)
+    cases += [c for r in ext for c in r]
+    iso_cases, iso_info = c06_ext.iso_collect(tier, iso_procs)
+    cases += iso_cases
     for k, c in enumerate(cases):
         c["id"] = k
-    if len(cases) < 1000:
+    if n_base < 1000:
         raise MachineryError("too few cases")
+    byfam, fam_fns, fam_embs = {}, {}, {}
+    for c in cases:
+        byfam[c["fam"]] = byfam.get(c["fam"], 0) + 1
+        fam_fns.setdefault(c["fam"], set()).add(c["fn"])
+        fam_embs.setdefault(c["fam"], set()).add(c["emb"].split("@")[0])
+    need = {"empty": (1000, 6, 10), "dtype": (15000, 6, 10), "layout": (15000, 8, 3), "rows_ext": (20000, 3, 9),
+            "large": (4000, 9, 9), "option": (5000, 5, 10), "bincount": (1500, 1, 9)}
+    for fam, (n_min, fn_min, emb_min) in need.items():
+        if byfam.get(fam, 0) < n_min or len(fam_fns.get(fam, ())) < fn_min or len(fam_embs.get(fam, ())) < emb_min:
+            raise MachineryError("audit family %s nearly empty: %d records, %d functions, %d embeddings" % (
+                fam, byfam.get(fam, 0), len(fam_fns.get(fam, ())), len(fam_embs.get(fam, ()))))
+    if any(v["reported"] + v["died_before"] != v["calls"] or v["calls"] < 100 for v in iso_info.values()):
+        raise MachineryError("isolated unique_bincount accounting: %r" % (iso_info,))
     rejects, states, wall = tlc.validate_batches("c06", "Grouping", cases, CFG)
     # classify
     byfn = {}
@@ -290,16 +322,25 @@ def main(argv):
         "states": states, "transitions": states,
         "traces_validated_against_impl": len(cases),
         "cases_per_function": byfn,
+        "cases_per_family": byfam,
+        "functions_per_family": {k: sorted(v) for k, v in fam_fns.items()},
+        "isolated_unique_bincount": iso_info,
+        "history_flags_checked": sum(1 for c in cases if "pure" in c),
         "distinct_abstract_inputs": distinct_inputs,
         "rejected": len(rejects),
-        "embeddings": sorted({c["emb"] for c in cases}),
+        "embeddings": sorted({c["emb"].split("@")[0] for c in cases}),
+        "layouts": sorted({x for c in cases if "@" in c["emb"] for x in c["emb"].split("@")[1].split(",")}),
         "exhaustive": True,
         "tlc_wall_s": round(wall, 1),
         "samples": [cases[len(cases) // 7], cases[len(cases) // 2], cases[-1]],
     }
     return V.finish("model_checking", cov, assumptions=[
         "partition of rows is invariant under order-preserving injective embeddings of the alphabet",
-        "arrays of at most 5 rows (rows functions) / 7 elements (sequence functions) over 3 symbols",
+        "arrays of at most 5 rows (rows functions) / 7 elements (sequence functions) over 3 symbols, plus seeded "
+        "arrays of 6..40 rows / 6..24 elements",
+        "unique_bincount is not run on values in 2^21..2^39 (one bin per value: 16 GiB at 2^31)",
+        "python lists of ints above int64 and string rows are outside 'integer arrays'; a list of labels "
+        "for group_min is outside its documented input",
     ])
 
 
